@@ -10,7 +10,7 @@ PROOF_MODULES = ["GrpcProofs.Properties.C18"]
 THEOREMS = ["GrpcProofs.C18." + t for t in (
     "retry_only_if", "transparent_only_if_unprocessed", "effective_max_is_min", "attempts_bounded",
     "replay_exact", "retry_replays_buffer", "no_new_attempt_when_committed", "commit_on_delivery",
-    "commit_on_buffer_limit", "negative_limit_commits_at_once", "fuel_suffices")]
+    "commit_on_buffer_limit", "negative_limit_commits_at_once", "fuel_suffices", "concurrent_send_replay_exact")]
 DESIGN_REF = "DESIGN.md section 8, C18"
 TECHNIQUE = ("Lean 4 theorems (case analysis of shouldRetry in source order; invariants over all application op sequences and all "
              "server scripts for the replay buffer / attempt logs) + T2 differential run of a real ClientConn over bufconn against a "
@@ -21,17 +21,26 @@ LEVEL_TEXT = ("Machine-checked Lean proofs, for every retry policy, buffer limit
               "non-transparent attempts never exceed min(policy, channel); transparent retries only for unprocessed first attempts "
               "(or streams never created); every attempt's wire log is a prefix of the application's history and a retry replays "
               "all of it; no attempt is created once committed, and delivery or exceeding the buffer limit commits.")
-LEVEL_NOTE = ("Server discipline: scripted answers are written only at quiescent points (client blocked in RecvMsg/Header or op returned), "
+LEVEL_NOTE = ("Concurrency: one sender and one receiver; withRetry holds cs.mu except around op(a), so the only interleaving that can "
+              "separate a sender's write from its bookkeeping is a receiver-side retry in that window: St.opSendRecv models it, "
+              "concurrent_send_replay_exact proves replay exactness for it, and the sendrecv op drives it on the real code by parking the "
+              "sender in a stats.Handler's OutPayload callback (after the transport write) while RecvMsg runs. Stream creation failing after "
+              "a successful pick (per-RPC credentials) is modelled (failLoop/nextAttempt) and driven via the ns= script. "
+              "Server discipline: scripted answers are written only at quiescent points (client blocked in RecvMsg/Header or op returned), "
               "in the model and in the harness alike; mid-burst failures of a replay are therefore outside the correspondence (they are "
               "inside the theorems only as far as replayAll always completing is concerned). Hedging does not exist in the code. "
               "A negative MaxRetryRPCBufferSize commits at once (negative_limit_commits_at_once); before /repo f1630c1 NewStream panicked "
               "there (finding F33, fixed).")
-GAP = "answers arriving in the middle of a replay burst; concurrent SendMsg/RecvMsg; context cancellation during backoff (C23 covers cancel); name-resolution / picker failures (C23)"
+GAP = ("answers arriving in the middle of a replay burst; concurrent SendMsg/RecvMsg schedules other than the one cs.mu leaves open "
+       "(the receiver running inside the sender's window between transport write and re-locking, which is modelled, proved and driven); "
+       "context cancellation during backoff (C23 covers cancel); picker failures (C23)")
 ASSUMPTIONS = ["the scripted server writes answers only at quiescent points", "http2 transport delivers frames of one stream in order (C02/C05)"]
 RULE = ("s_retry: random policy (maxAttempts 0/2..6, codes, backoff, channel limit 0/2/3/7, throttling, disableRetry), RPC kind "
         "(unary/client-stream/bidi), buffer limit (default, 0..60, negative), server script of 1..6 behaviours (trailers-only with "
         "code/pushback at HEADERS / after n messages / at half-close, headers-then-fail, OK response, REFUSED_STREAM, GOAWAY above id, "
-        "no answer) and a random application op sequence (send sizes 0..40, close, recv, hdr); s_shouldretry: the C19 decision-table "
+        "no answer), a script of stream-creation outcomes (per-RPC credentials failing with a retryable or fatal code after the pick) and a random "
+        "application op sequence (send sizes 0..40, close, recv, hdr, and sendrecv = SendMsg with a concurrent RecvMsg scheduled into the sender's "
+        "window between transport write and re-locking); s_shouldretry: the C19 decision-table "
         "cases; retrycfg: policy conversion. Non-trivial = at least one retry attempt (N event beyond the first) or a commit by limit.")
 
 MAXI = 2**63 - 1
@@ -81,8 +90,25 @@ def cfg(rng):
     dis = int(rng.random() < 0.06)
     n = rng.randrange(1, 7)
     script = ";".join(beh(rng, kind, codes if ma else []) for _ in range(n))
-    return ("cfg ma=%d codes=%s ib=%d mb=%d mult=%s chan=%d thr=%s dis=%d kind=%s script=%s" %
-            (ma, ",".join(map(str, codes)), ib, mb, mult, chan, thr, dis, kind, script)), kind
+    return ("cfg ma=%d codes=%s ib=%d mb=%d mult=%s chan=%d thr=%s dis=%d kind=%s script=%s ns=%s" %
+            (ma, ",".join(map(str, codes)), ib, mb, mult, chan, thr, dis, kind, script, ns_script(rng, codes))), kind
+
+
+def ns_script(rng, codes):
+    """outcome of each stream creation (pick ok, then transport.NewStream): '-' ok or the status code the per-RPC
+    credentials fail with (codes the channel would rewrite to INTERNAL are avoided)"""
+    if rng.random() < 0.7:
+        return "-"
+    out = []
+    for _ in range(rng.randrange(1, 6)):
+        r = rng.random()
+        if r < 0.55:
+            out.append("-")
+        elif r < 0.8 and codes:
+            out.append(str(rng.choice(codes)))
+        else:
+            out.append(str(rng.choice([16, 13, 7, 2])))
+    return ",".join(out)
 
 
 def app(rng, kind):
@@ -118,15 +144,18 @@ def app(rng, kind):
         if not closed:
             ops.append("close")
         ops += ["recv"] * rng.randrange(1, 4)
+    # concurrent use: some sends run with a RecvMsg inside their window (see St.opSendRecv)
+    if rng.random() < 0.45:
+        ops = [("sendrecv" + o[4:]) if o.startswith("send ") and rng.random() < 0.5 else o for o in ops]
     return ops
 
 
 def directed():
-    P = "cfg ma=%d codes=14 ib=1000000000 mb=10000000000 mult=2 chan=%d thr=%s dis=%d kind=%s script=%s"
+    P = "cfg ma=%d codes=14 ib=1000000000 mb=10000000000 mult=2 chan=%d thr=%s dis=%d kind=%s script=%s ns=%s"
     out = []
 
-    def c(tag, ma, chan, thr, dis, kind, script, ops):
-        out.append(Case("s_retry", [P % (ma, chan, thr, dis, kind, script)] + ops, "directed-" + tag))
+    def c(tag, ma, chan, thr, dis, kind, script, ops, ns="-"):
+        out.append(Case("s_retry", [P % (ma, chan, thr, dis, kind, script, ns)] + ops, "directed-" + tag))
     c("unary-retry-pushback", 4, 0, "-", 0, "u", "TE:14;TE:14:" + hexs("123") + ";HE:0", ["new d", "send 10", "recv", "recv"])
     c("bidi-refuse-then-exhaust", 3, 0, "-", 0, "b", "T0:14;R;T2:14;T0:14", ["new d", "send 3", "send 4", "send 5", "close", "recv", "recv"])
     c("limit-commits", 3, 0, "-", 0, "b", "T2:14", ["new 6", "send 3", "send 4", "send 5", "close", "recv"])
@@ -147,6 +176,23 @@ def directed():
     c("send-after-close", 5, 0, "-", 0, "c", "TE:14", ["new d", "send 1", "close", "send 3", "recv", "recv"])
     c("bad-pushback", 5, 0, "4:1", 0, "u", "TE:14:" + hexs("-5") + ";TE:14", ["new d", "send 1", "recv"])
     c("hdr-retry", 5, 0, "-", 0, "b", "T0:14;T0:14;H0:0", ["new d", "hdr", "recv", "recv"])
+    # the receiver retries inside the sender's window (between transport write and re-locking)
+    for kind in ("b", "c"):
+        c("window-retry-" + kind, 5, 0, "-", 0, kind, "T1:14;HE:0", ["new d", "sendrecv 5", "close", "recv", "recv"])
+        c("window-retry-answered-" + kind, 5, 0, "-", 0, kind, "T1:14;H1:0", ["new d", "sendrecv 5", "close", "recv", "recv"])
+        c("window-retry-answered2-" + kind, 5, 0, "-", 0, kind, "T2:14;H2:0", ["new d", "send 3", "sendrecv 4", "sendrecv 5", "close", "recv"])
+        c("window-retry2-" + kind, 5, 0, "-", 0, kind, "T2:14;T3:14;HE:0", ["new d", "send 1", "sendrecv 2", "sendrecv 3", "close", "recv"])
+        c("window-noretry-" + kind, 5, 0, "-", 0, kind, "HE:0", ["new d", "sendrecv 5", "sendrecv 6", "close", "recv"])
+        c("window-limit-" + kind, 5, 0, "-", 0, kind, "T1:14;HE:0", ["new 7", "sendrecv 1", "sendrecv 1", "close", "recv"])
+        c("window-headers-" + kind, 5, 0, "-", 0, kind, "H1:14;HE:0", ["new d", "sendrecv 5", "close", "recv"])
+        c("window-exhaust-" + kind, 2, 0, "-", 0, kind, "T1:14;T1:14", ["new d", "sendrecv 5", "sendrecv 6", "recv"])
+    # stream creation fails after a successful pick (per-RPC credentials)
+    c("ns-retry-retryable", 5, 0, "-", 0, "u", "TE:14;HE:0", ["new d", "send 1", "recv"], "-,14")
+    c("ns-retry-fatal", 5, 0, "-", 0, "u", "TE:14;HE:0", ["new d", "send 1", "recv", "recv"], "-,16")
+    c("ns-first-retryable", 5, 0, "-", 0, "b", "HE:0", ["new d", "send 1", "close", "recv"], "14,14,-")
+    c("ns-first-fatal", 5, 0, "-", 0, "b", "HE:0", ["new d", "send 1"], "16")
+    c("ns-exhaust", 3, 0, "-", 0, "u", "TE:14;HE:0", ["new d", "send 1", "recv"], "-,14,14,14")
+    c("ns-send-path", 5, 0, "-", 0, "b", "T0:14;HE:0", ["new d", "send 1", "send 2", "close", "recv"], "-,14,-")
     return out
 
 
